@@ -9,7 +9,7 @@ def run_C16(ctx):
     q = ctx.quick
     agg = dict(evaluations=0, distinct=0, behaviours=0, samples=[], n_violations=0)
     faults = [dict(kind="none", n=0)] + [dict(kind="flush", n=k) for k in (1, 2, 3)] + [dict(kind="write", n=k) for k in (1, 2, 3)]
-    consts = dict(Shapes=Raw('{"flusher", "flusherr", "wrap1", "wrap2", "wrapflusher"}'), Msgs=Raw('{"m1", "m2", "empty"}'), MaxOps=4 if q else 5,
+    consts = dict(Shapes=Raw('{"flusher", "flusherr", "wrap1", "wrap2", "wrapflusher", "both"}'), Msgs=Raw('{"m1", "m2", "empty"}'), MaxOps=4 if q else 5,
                   Faults=Raw("{" + ", ".join(core.tla_value(f) for f in faults) + "}"))
     d = core.write_mc(ctx, "SessionGen", "Session", consts, invariants=["HeaderFirst", "UpgradeOnce", "BodyIsSends", "FlushPushes", "FirstError", "Export"])
     r = core.run_tlc(ctx, d, "SessionGen", timeout=3000)
@@ -38,7 +38,7 @@ def run_C16(ctx):
     cov = {
         "states": ctx.states, "transitions": ctx.transitions, "traces_validated_against_impl": agg["behaviours"], "samples": agg["samples"][:4],
         "evaluations": agg["evaluations"], "distinct_nontrivial": agg["distinct"],
-        "rule": "every sequence of <= %d Send / Flush calls over messages {m1, m2, empty} x 5 flushing writer shapes x a failure of the k-th underlying flush (k<=3) or of a write "
+        "rule": "every sequence of <= %d Send / Flush calls over messages {m1, m2, empty} x 6 flushing writer shapes (Flusher, FlushError, both, wrapped once / twice via Unwrap) x a failure of the k-th underlying flush (k<=3) or of a write "
                 "of the k-th writing Send (k<=3; tried at every Write call of that Send, accepting half the bytes); the ordered log of header / flush / body writes on a "
                 "recording writer is compared with the spec's log, every call's return with the spec's; plus all 64 combinations of (can flush, Last-Event-Id absent / "
                 "empty / valid / multi-line, OnSession unset / reject / accept without / with topics, provider nil / error) through Server.ServeHTTP on 3 writer shapes" % (4 if q else 5),
